@@ -1,5 +1,6 @@
 """CLI-level checks (the rapidquilt binary on generated workspaces)."""
 
+import json
 import os
 import random
 
@@ -97,8 +98,9 @@ def c05_worker(item):
         # Whatever happens, the outcome must be all-or-nothing: nothing saved, nothing recorded.
         last = min(len(ws.patches), first + count)
         stop = ws.fail_at if ws.fail_at is not None else last
-        if first < min(stop + 1, last):
-            unloadable_at = r.randrange(first, min(stop + 1, last))
+        hi = last if r.random() < 0.35 else min(stop + 1, last)   # sometimes behind the failing patch
+        if first < hi:
+            unloadable_at = r.randrange(first, hi)
             for t in ws.trees:
                 t["zdir/inner.txt"] = (b"inner\n", 0o644)
             pt = ws.patches[unloadable_at]
@@ -138,6 +140,11 @@ def c05_worker(item):
                 except OSError:
                     pass
         res["evals"] = 1
+        if unloadable_at is not None and ws.fail_at is not None and ws.fail_at < unloadable_at:
+            # a failing patch comes first: the run never gets to the unloadable target (a parallel worker may, running ahead,
+            # and must not let that change the outcome) - judged like any other run
+            res.count("runs-with-an-unloadable-target-after-the-failing-patch")
+            unloadable_at = None
         if unloadable_at is not None:
             res.count("runs-with-an-unloadable-target")
             if rr.timed_out:
@@ -236,6 +243,10 @@ def c08_worker(item):
         # more patches than the default backup window (100)
         ws = wsgen.generate_long(seed, r.randint(101, 135), nfiles=r.choice([1, 3]))
         res.count("long-series-(>100-patches)")
+    elif r.random() < 0.03:
+        # a file (and so its backups) of more lines than one vectored write takes (IOV_MAX = 1024)
+        ws = wsgen.generate_long(seed, r.randint(2, 8), nfiles=r.choice([1, 2]), big_lines=r.choice([1025, 1500, 4097]), p_fail=0.3)
+        res.count("file-of-more-than-1024-lines")
     else:
         ws = wsgen.generate(seed, cfg)
     threads = r.choice([1, 4])
@@ -256,12 +267,21 @@ def c08_worker(item):
         rr = runner.run_rq(binary, work, args)
         res["evals"] = 1
         out = cli.check_push_outcome(res, ws, work, rr, first, gcount, sig0, [binary] + args)
+        tree_wrong = False
         if not out:
             # a wrong tree or exit status is C05's finding, not a metadata verdict; a crash and a wrong
             # applied-patches file ("gains exactly the applied names in series order") are C08's own
+            classes = set(v["sig"].get("class") for v in res["violations"])
             res["violations"] = [v for v in res["violations"] if v["sig"].get("class") in ("crash", "applied-patches")]
-            res.count("runs-not-judged-(C05-oracle-failed)")
-            return res
+            if classes != {"tree-differs"}:
+                res.count("runs-not-judged-(C05-oracle-failed)")
+                return res
+            # only the tree is wrong (exit status and applied-patches are as expected): the backups are still judged,
+            # against the pre-patch states known by construction; the simulated pop needs a right tree and is skipped
+            tree_wrong = True
+            res.count("runs-with-a-wrong-tree-whose-backups-are-still-judged")
+            k, exp_tree, fail_idx = wsgen.expected_after(ws, first, gcount)
+            out = (k, exp_tree, fail_idx, cli.observe(work))
         k, exp_tree, fail_idx, obs = out
         last = min(len(ws.patches), first + gcount)
         stopped_early = (first + k) != last
@@ -290,7 +310,7 @@ def c08_worker(item):
                 if p not in exp:
                     bad = ("backup-unexpected", p, "%d bytes" % len(got[p][1]))
                     break
-        if not bad and exp:
+        if not bad and exp and not tree_wrong:
             # simulated pop: restore newest first
             tree = {p: (v[1], v[2]) for p, v in obs["tree"].items()}
             window = k if eff_count == "all" else min(int(eff_count), k)
@@ -585,7 +605,12 @@ def expected_rejects(ws, fail_idx):
         if not op.poison or op.poison == "rename-over":
             continue   # a refused rename is not applied at all: no reject
         hunks = [op.hunks[i] for i in op.failing]
-        out[op.path + ".rej"] = (op, hunks)
+        key = op.path + ".rej"
+        if key in out:
+            # several file patches of the patch for the same file: one reject holding the failed hunks of all of them, in order
+            out[key] = (out[key][0], out[key][1] + hunks)
+        else:
+            out[key] = (op, hunks)
     return out
 
 
@@ -651,6 +676,42 @@ def c13_drift_case(r, seed):
     return ws
 
 
+def c13_twice_case(r, seed):
+    """directed shape: the failing patch has two file patches for the same file and each of them has a hunk that fails
+    (the second is a diff against the file as the first leaves it; every change replaces lines one for one, so nothing moves)"""
+    n = 44
+    v0 = [b"T%d some text %d\n" % (i, (i * 31) % 17) for i in range(1, n + 1)]
+    spots = [5, 15, 25, 35]
+    v1 = list(v0)
+    for q in spots[:2]:
+        v1[q - 1] = b"T%d first change\n" % q
+    v2 = list(v1)
+    for q in spots[2:]:
+        v2[q - 1] = b"T%d second change\n" % q
+    name = r.choice(["twice.c", "lib/twice.c"])
+    git = r.random() < 0.4
+    ctx = r.choice([1, 2, 3])
+    o1 = wsgen.Op("modify", name, pre=b"".join(v0), post=b"".join(v1), pre_mode=0o644, post_mode=0o644)
+    o2 = wsgen.Op("modify", name, pre=b"".join(v1), post=b"".join(v2), pre_mode=0o644, post_mode=0o644)
+    for o in (o1, o2):
+        o.style = "git" if git else "plain"
+        o.ctx = ctx
+        o.poison = "hunks"
+        o.poison_want = sorted(r.sample([0, 1], r.randint(1, 2)))
+    pt = wsgen.PatchSpec("p-twice.patch", [o1, o2], 1, False, git)
+    wsgen.render_patch(pt, r)
+    if len(o1.hunks) != 2 or len(o2.hunks) != 2:
+        return None
+    t0 = {name: (b"".join(v0), 0o644), "other.txt": (b"o1\no2\n", 0o644)}
+    ws = wsgen.Workspace()
+    ws.seed = seed
+    ws.t0 = t0
+    ws.patches = [pt]
+    ws.trees = [t0]
+    ws.fail_at = 0
+    return ws
+
+
 def c13_worker(item):
     seed, binary = item
     r = random.Random(seed * 32452843 + 13)
@@ -667,12 +728,32 @@ def c13_worker(item):
         if dws is not None:
             ws = dws
             res.count("shape:failed-hunk-between-hunks-applied-with-an-offset")
+    elif r.random() < 0.04:
+        dws = c13_twice_case(r, seed)
+        if dws is not None:
+            ws = dws
+            res.count("shape:two-failing-file-patches-for-one-file")
     threads = r.choice([1, 2, 4, 16])
     verbosity = r.choice(["-q", None])
     args = base_args(threads=threads, backup=r.choice(["never", None, "always"]), verbosity=verbosity) + ["push", "-a"]
     sig0 = {"driver": "seq" if threads == 1 else "par"}
     with Scratch("c13") as scr:
         orig, work = fresh(scr, ws, 0)
+        if r.random() < 0.3:
+            # leftovers of an earlier failed push: long stale rejects where this run will write its own
+            stale = b"--- a/stale\n+++ b/stale\n" + b"".join(b"@@ -%d,1 +%d,1 @@\n-stale %d\n+STALE %d\n" % (k, k, k, k) for k in range(1, r.choice([3, 40, 400])))
+            final = ws.trees[ws.fail_at]
+            for rp in expected_rejects(ws, ws.fail_at):
+                parent = os.path.dirname(rp)
+                # only where the directory is there before and after the push in any case (a leftover must not be what keeps it)
+                stays = parent == "" or (any(os.path.dirname(q) == parent for q in final) and any(os.path.dirname(q) == parent for q in ws.trees[0]))
+                if not stays or r.random() >= 0.7:
+                    continue
+                for root in (orig, work):
+                    fp = os.path.join(os.fsencode(root), rp.encode("utf-8", "surrogateescape"))
+                    with open(fp, "wb") as f:
+                        f.write(stale)
+                res.count("stale-reject-files-in-place")
         rr = runner.run_rq(binary, work, args)
         res["evals"] = 1
         out = cli.check_push_outcome(res, ws, work, rr, 0, len(ws.patches), sig0, [binary] + args)
@@ -716,7 +797,32 @@ def c13_worker(item):
                 cls = "reject-hunk-count" if len(want) != len(have) else ("reject-hunk-lines" if [w[:2] for w in want] != [h[:2] for h in have] else "reject-line-numbers")
                 bad = (cls, rp, "expected %d hunks %r, got %d hunks %r" % (len(want), [w[2:] for w in want], len(have), [h[2:] for h in have]))
                 break
+            # the reject must also read back as a patch for that file with the tool's own parser (harness sub-command, strip 0)
+            import subprocess
+            from common import HARNESS_BIN, clean_env
+            rej_copy = os.path.join(scr, "reject-to-read-back.patch")   # (a name the harness can take as an argument)
+            with open(rej_copy, "wb") as f:
+                f.write(got[rp][1])
+            try:
+                dp = subprocess.run([HARNESS_BIN, "dump", rej_copy, "0"], env=clean_env(), stdout=subprocess.PIPE, stderr=subprocess.PIPE, timeout=30)
+                if dp.returncode != 0:
+                    raise ValueError("exit %s: %s" % (dp.returncode, dp.stderr[-200:]))
+                parsed = json.loads(dp.stdout.decode("ascii"))
+            except (subprocess.TimeoutExpired, ValueError) as e:
+                res["inconclusive"] = "the harness could not read a reject back (harness problem, not a verdict): %r" % (e,)
+                return res
+            if "error" in parsed:
+                bad = ("reject-does-not-parse", rp, str(parsed["error"])[:200])
+                break
+            fps = parsed["file_patches"]
+            want_name = op.path.encode("utf-8", "surrogateescape")
+            read_names = [set(x.encode("latin-1") for x in (fp["old"], fp["new"]) if x is not None) for fp in fps]
+            if not fps or any(want_name not in ns for ns in read_names) or sum(len(fp["hunks"]) for fp in fps) != len(hunks):
+                bad = ("reject-reads-back-as-another-patch", rp, "read back: %d file patch(es) named %r with %d hunks; wanted %r with %d hunks" % (
+                    len(fps), [sorted(ns) for ns in read_names], sum(len(fp["hunks"]) for fp in fps), want_name, len(hunks)))
+                break
             res.count("reject-files-verified")
+            res.count("rejects-read-back-with-the-tool's-parser")
             res.count("rejected-hunks-verified", len(hunks))
         if not bad:
             for rp in got:
@@ -786,6 +892,8 @@ def unquote(n):
 
 
 def cli_c13(v, tier, seed):
+    from common import build_harness
+    build_harness()
     b = rq()
     cli.pool_run(v, c13_worker, [(seed * 1_000_003 + i, b) for i in range(n(tier, 10000, 150000))])
 
@@ -1081,7 +1189,7 @@ def c19_worker(item):
         name = esc_name.replace("/{ABS}", abs_decoy).replace("{ABS}", abs_decoy)
 
         def q(nm):
-            b = nm.encode()
+            b = nm.encode("utf-8", "surrogateescape")
             if quoted:
                 return b'"' + b"".join(b"\\%03o" % c if c in (0x2e, 0x22, 0x5c, 0x09) else bytes([c]) for c in b) + b'"'
             import udiff
@@ -2086,6 +2194,26 @@ def c06_worker(item):
         res.count("shape:reject-in-a-directory-created-by-this-run")
     if r.random() < 0.1 and wsgen.add_nested_emptying(ws, r):
         res.count("shape:nested-directories-emptied")
+    if ws.fail_at is not None and ws.fail_at + 1 < len(ws.patches) and r.random() < 0.12:
+        # a patch AFTER the failing one names something that can not be loaded (a directory in its place), as the target of a
+        # modification or as the new name of a rename: a single-threaded run never gets there, so a worker that runs ahead
+        # into it must not change the outcome
+        for t in ws.trees:
+            t["zdir/inner.txt"] = (b"inner\n", 0o644)
+            t["zquiet.txt"] = (b"a file that no patch but this one names\n", 0o755)
+        j = r.randrange(ws.fail_at + 1, len(ws.patches))
+        pt = ws.patches[j]
+        an, bn = wsgen._prefix(pt.strip, "a") + "zdir", wsgen._prefix(pt.strip, "b") + "zdir"
+        if r.random() < 0.5:
+            src = wsgen._prefix(pt.strip, "a") + "zquiet.txt"
+            extra = b"diff --git %s %s\nsimilarity index 100%%\nrename from zquiet.txt\nrename to zdir\n" % (src.encode(), bn.encode())
+            res.count("shape:unloadable-name-after-the-failing-patch:rename-target")
+        else:
+            extra = (b"diff --git %s %s\n" % (an.encode(), bn.encode()) if pt.git else b"") + b"--- %s\n+++ %s\n@@ -1 +1 @@\n-x\n+y\n" % (an.encode(), bn.encode())
+            res.count("shape:unloadable-name-after-the-failing-patch:target")
+        # (a hunk-less git section goes last: in front of a plain section its header would swallow that section's ---/+++ lines
+        # and the patch would no longer parse, which is outside this property)
+        pt.text = (pt.text + extra) if (extra.startswith(b"diff --git") and b"rename from" in extra) or r.random() < 0.5 else (extra + pt.text)
     nthreads = r.choice([2, 3, 4, 8, 16])
     backup = r.choice(["always", None, "never"])
     bcount = r.choice([None, None, None, 0, 1, 2, "all"])
@@ -2554,6 +2682,10 @@ def c01_worker(item):
     if a_state == "absent" and b_state == "absent":
         b_state = "content"
     a = wsgen.gen_content(r, r.choice([3, 10, 40])) or b"a\n"
+    if r.random() < 0.03:
+        # more lines than one vectored write takes (IOV_MAX = 1024)
+        a = b"".join(b"line %d of a long file\n" % k for k in range(r.choice([1025, 1300, 3000]))) + a
+        res.count("file-of-more-than-1024-lines")
     b = wsgen.mutate_content(r, a, 5)
     if r.random() < 0.15:
         b = wsgen.gen_content(r, 20) or b"other\n"
